@@ -33,16 +33,16 @@ def dft_upsample(
 
     M, N = F.shape
     du = np.ceil(1.5 * up).astype(int)
-    row = np.arange(-du, du + 1)
-    col = np.arange(-du, du + 1)
-    r_shift = shift[0] - M // 2
-    c_shift = shift[1] - N // 2
+    # sample positions (in upsampled pixels) of the local patch, centred on `shift`
+    row = np.arange(-du, du + 1) + shift[0] * up
+    col = np.arange(-du, du + 1) + shift[1] * up
 
+    # inverse-DFT kernels: F is a Fourier-domain array, the patch is in real space
     kern_row = np.exp(
-        -2j * np.pi / (M * up) * np.outer(row, xp.fft.ifftshift(xp.arange(M)) - M // 2 + r_shift)
+        2j * np.pi / (M * up) * np.outer(row, xp.fft.ifftshift(xp.arange(M)) - M // 2)
     )
     kern_col = np.exp(
-        -2j * np.pi / (N * up) * np.outer(xp.fft.ifftshift(xp.arange(N)) - N // 2 + c_shift, col)
+        2j * np.pi / (N * up) * np.outer(xp.fft.ifftshift(xp.arange(N)) - N // 2, col)
     )
     return xp.real(kern_row @ F @ kern_col)
 
@@ -142,7 +142,9 @@ def cross_correlation_shift(
         except (IndexError, ValueError):
             dxf = dyf = 0.0
 
-        shifts = np.array([x0, y0]) + (np.array(peak) - upsample_factor) / upsample_factor
+        # the local patch is centred on (x0, y0): its centre sample has index (len - 1) // 2
+        center = (np.array(local.shape) - 1) // 2
+        shifts = np.array([x0, y0]) + (np.array(peak) - center) / upsample_factor
         shifts += np.array([dxf, dyf]) / upsample_factor
 
     shifts = (shifts + 0.5 * np.array(cc.shape)) % cc.shape - 0.5 * np.array(cc.shape)
